@@ -757,11 +757,11 @@ func Run(r *report.Run) int {
 	x := &runner{r: r}
 	var progs []program
 	progs = append(progs, fixedPrograms()...)
-	n := r.Pick(36, 400)
+	n := r.Pick(36, 300)
 	hugeSizes := []int{4<<20 - 3, 1<<20 - 2, 2<<20 - 4, 4<<20 - 2, 1 << 20} // chunk lengths 4 MiB, 1 MiB+1, 2 MiB-1, 4 MiB+1, 1 MiB+3
 	for i := 0; i < n; i++ {
 		huge := 0
-		if i%20 == 0 { // 2 programs in the quick tier, 20 in the thorough tier
+		if i%20 == 0 { // 2 programs in the quick tier, 15 in the thorough tier
 			huge = hugeSizes[(i/20)%len(hugeSizes)]
 		}
 		progs = append(progs, genProgram(rnd, huge))
